@@ -19,6 +19,11 @@ func VerifSetHook(
 	verifhook.L = l
 }
 
+// VerifSetTickerHook installs the hook that receives the report loop's ticker.
+func VerifSetTickerHook(f func(t *time.Ticker)) {
+	verifhook.T = f
+}
+
 // VerifNewRootScope is NewRootScope with an explicit registry shard count.
 func VerifNewRootScope(opts ScopeOptions, interval time.Duration, shards uint) (Scope, io.Closer) {
 	opts.registryShardCount = shards
